@@ -478,6 +478,48 @@ def r7_log_kind_arms(ctx, rule_id="C04-R7"):
         r.anchor_missing("log-kind calls inside EventLogType arms (found %d, 51 on the pinned tree)" % n)
 
 
+KIND_FIELDS = {"identity", "account", "device", "files", "folders"}
+DERIVED = re.compile(r"(::Clone|::PartialEq|::Eq|::Debug|::Serialize|::Deserialize|::Message|::Default|::Hash)$")
+
+
+def r8_per_kind_aggregates(ctx):
+    """A hand-written method of a per-log-kind record (identity / account /
+    device / files / folders fields) that looks at two or more of the kinds
+    looks at all of them: dropping one kind from `has_conflicts`, `diff`, a
+    conversion .. makes that log invisible to the sync."""
+    ws = ctx.ws
+    r = ctx.rule("C04-R8", "methods of per-log-kind records cover every log kind the record has",
+                 floor=9, kind="K5 field coverage")
+    n = 0
+    for path, a in sorted(ws.adts.items()):
+        if a["kind"] != "Struct" or not a["variants"] or not (path.startswith("sos_sync::") or path.startswith("sos_protocol::diff")):
+            continue
+        fs = {f["name"] for f in a["variants"][0]["fields"]} & KIND_FIELDS
+        if len(fs) < 4:
+            continue
+        for imp in ws.impls:
+            if imp.get("self_adt") != path or DERIVED.search(imp.get("trait") or ""):
+                continue
+            for it in imp["items"]:
+                fn = ws.fns.get(it["path"])
+                if fn is None or fn.meta.get("exp"):
+                    continue
+                rd, wr = idioms.fields_touched(ws, fn, path)
+                seen = (rd | wr) & KIND_FIELDS
+                if len(seen) < 2:
+                    continue
+                n += 1
+                k = "%s|covers-kinds" % it["path"]
+                miss = sorted(fs - seen)
+                if miss:
+                    r.violation(k, cfg.loc(fn.main), "%s of %s looks at %s but not at `%s`: a divergence/change that is only in that log is ignored by every sync" % (
+                        it["name"], path.rsplit("::", 1)[-1], sorted(seen), "`, `".join(miss)), work=len(fs))
+                else:
+                    r.ok(k, cfg.loc(fn.main), "%s covers %s" % (it["name"], sorted(seen)), work=len(fs))
+    if n < 9:
+        r.anchor_missing("hand-written methods over per-kind records (found %d, 9 on the pinned tree)" % n)
+
+
 def run(ctx):
     ctx.explanation = (
         "Structural necessary conditions of convergence, decided over the MIR of the sync path: (R1) every function "
@@ -496,3 +538,4 @@ def run(ctx):
     r5_hard_conflict(ctx)
     r6_canonical_log_order(ctx)
     r7_log_kind_arms(ctx)
+    r8_per_kind_aggregates(ctx)
